@@ -11,6 +11,7 @@ import Orda.Proofs.DocCausal
 import Orda.Proofs.DocLocalRemote
 import Orda.Proofs.DocNet
 import Orda.Proofs.ListNet
+import Orda.Proofs.MapNet
 namespace Orda.Props.C01
 open Orda
 
@@ -272,5 +273,25 @@ theorem list_quiescent_replicas_agree (cuid : Nat → String) (n : Nat) (net : L
     (hq : LNet.Quiescent net) (i j : Nat) (hi : i < net.nodes.length) (hj : j < net.nodes.length) :
     net.nodes[i].r.state = net.nodes[j].r.state :=
   lnet_quiescent_converged net h hq i j hi hj
+
+/-! ### maps and counters END TO END (Proofs/MapNet): the same system, ANY public call, no causality hypothesis -/
+
+open Orda.MNet in
+/-- two map replicas that have the same operations agree on every read, on Size and on the JSON view (as lookups, up to
+    permutation of the bindings, key-sorted, and in canonical JSON form); plain equality of the association lists is
+    false (`MNet.ExMap`), as for documents -/
+theorem map_same_operations_same_reads (cuid : Nat → String) (n : Nat) (net : MNet.Net) (h : MNet.Reach .map cuid n net)
+    (i j : Nat) (hi : i < net.nodes.length) (hj : j < net.nodes.length) (mi mj : LwwMap)
+    (hsi : net.nodes[i].r.state = .map mi) (hsj : net.nodes[j].r.state = .map mj) (hso : MNet.SameOps net i j) :
+    (∀ k, mi.get k = mj.get k) ∧ mi.size = mj.size ∧ (∀ k, alFind k mi.live = alFind k mj.live) ∧
+      mi.live.Perm mj.live ∧ sortedView mi = sortedView mj ∧ jsonView mi = jsonView mj :=
+  mnet_same_operations_same_reads net h i j hi hj mi mj hsi hsj hso
+
+open Orda.MNet in
+/-- counters: same operations ⇒ the same value -/
+theorem counter_same_operations_same_state (cuid : Nat → String) (n : Nat) (net : MNet.Net)
+    (h : MNet.Reach .counter cuid n net) (i j : Nat) (hi : i < net.nodes.length) (hj : j < net.nodes.length)
+    (hso : MNet.SameOps net i j) : net.nodes[i].r.state = net.nodes[j].r.state :=
+  cnet_same_operations_same_state net h i j hi hj hso
 
 end Orda.Props.C01
